@@ -249,6 +249,11 @@ def run(check):
             inv = inv[:8]
         docs += inv
         docs += whole_document_invalidations(schema, doc)
+        if len(schema.props) == 1:
+            # an object with a single property may be written as that property's value: such a document is valid
+            (k1, p1), = schema.props.items()
+            if k1 in doc and not isinstance(doc[k1], (list, dict)) and doc[k1] is not None:
+                docs.append(("valid", doc[k1]))
         scripts = gen.make_scripts(prog.steps, {})
         for kind, d in docs:
             for entry in ("execute", "engine"):
@@ -287,6 +292,28 @@ def run(check):
             expected = ref.normalise_input(ysch, doc)
         case = {"id": cid, "mode": "engine", "files": yprog.files(), "scripts": yscripts, "runs": [], "extra": {"engine": {"input_yaml": text}}}
         items.append((case, {"schema": -1, "kind": "yaml-text:" + name if doc is None else "valid", "entry": "engine", "valid": doc is not None, "expected": expected, "doc": text}))
+    # a loop fed directly from a list of the input, whose sub-workflow normalises an item differently (it has a further optional
+    # field with a default); the input is referred to again after the loop got its items: it must still be the parent's own
+    # normalised document
+    for j in range(check.pick(6, 40)):
+        rng = random.Random(derive_seed(check.seed, "c19-loop", j))
+        lsch = InputSchema({"items": {"type": ("list", ("object", "Item", {"tag": {"type": "string"}}))}, "name": {"type": "string", "required": False, "default": "dflt"}})
+        sub = Program([gen.plugin_step("w0", Expr(In("tag")), src="sub_w0")], {"success": {"t": gen.tagref("w0"), "note": Expr(In("note"))}},
+                      InputSchema({"tag": {"type": "string"}, "note": {"type": "string", "required": False, "default": "n/a"}}, root="Item"), name="sub.yaml")
+        loop = Step("loop", "foreach", sub=sub, items=Expr(In("items")), parallelism=rng.choice([1, 2]))
+        after = gen.plugin_step("e1", "lit", extra_input={"a": Expr(In())}, wait_for=Expr(Ref("loop", "outputs", "success")))
+        e2 = gen.plugin_step("e2", "lit", extra_input={"a": Expr(In())})
+        lprog = Program([loop, after, e2], {"success": {"all": Expr(In()), "d": Expr(Ref("loop", "outputs", "success", "data")), "e1": Expr(Ref("e1", "outputs", "success", "a")), "e2": Expr(Ref("e2", "outputs", "success"))}}, lsch)
+        ldoc = {"items": [{"tag": "i%d" % q} for q in range(rng.choice([1, 2, 4]))]}
+        cid = "c19-%05d" % idx
+        idx += 1
+        entry = "execute" if j % 2 else "engine"
+        lscripts = gen.make_scripts(lprog.steps, {})
+        if entry == "execute":
+            case = {"id": cid, "files": lprog.files(), "scripts": lscripts, "runs": [{"input": ldoc}]}
+        else:
+            case = {"id": cid, "mode": "engine", "files": lprog.files(), "scripts": lscripts, "runs": [], "extra": {"engine": {"input_yaml": json.dumps(ldoc)}}}
+        items.append((case, {"schema": -2, "kind": "valid", "entry": entry, "valid": True, "expected": ref.normalise_input(lsch, ldoc), "doc": ldoc}))
     with harness.Runner() as rn:
         out = rn.run_cases([c for c, _m in items], per_case_timeout=60)
     stats = {"valid_runs": 0, "invalid_runs": 0, "invalid_refused": 0, "kinds": {}, "rejected_programs": 0}
@@ -329,7 +356,7 @@ def run(check):
             check.report("input@normalisation:output:" + m["entry"], "schema %d: $.input in the workflow output differs from the normalised document: %s" % (m["schema"], mm), {"case": case, "expected": exp, "got": data})
         seen = {}
         for e in ev:
-            if e["kind"] == "exec-start":
+            if e["kind"] == "exec-start" and e["src"] in ("e1", "e2"):
                 seen[e["src"]] = ref.denum((e.get("data") or {}).get("raw") or {}).get("a")
         for src, v in seen.items():
             mm = ref.match(exp, v)
